@@ -13,13 +13,20 @@ Theorem C05_gen_tables : gen_tables_agree.
 Proof. exact gen_tables_agree_proof. Qed.
 Print Assumptions C05_gen_tables.
 
-(* Full statements (DESIGN section 6):
-     C05_layout    : forall m, wf_msg m -> encode enc mac None m = Ok (rfc_encode m)
-     C05_roundtrip : forall m, wf_msg m -> exists b, encode .. m = Ok b /\ decode .. None false b = Ok m
-   Proved below for every message whose payloads are SA (nested proposals, transforms with/without key length,
-   any SPI size), KE, IDi, IDr, AUTH, NONCE, NOTIFY, VENDOR and a trailing SK - unbounded in the number of
-   payloads, proposals and transforms.  Missing for the unrestricted statements: the body lemmas for DELETE and
-   TSi/TSr ([simple_chain] excludes exactly these two); they are covered by the correspondence and the oracle. *)
+(** Full statements (DESIGN section 6): every well-formed message in the clear - payloads SA (nested proposals,
+    transforms with/without key length, any SPI size), KE, IDi, IDr, AUTH, NONCE, NOTIFY, DELETE (any number of
+    equally sized SPIs), VENDOR, TSi, TSr (any number of IPv4/IPv6 selectors) and a trailing SK - unbounded in the
+    number of payloads, proposals, transforms, SPIs and selectors. *)
+Theorem C05_layout : forall enc mac m, wf_msg m -> encode enc mac None m = Ok (rfc_encode m).
+Proof. exact layout_full. Qed.
+Print Assumptions C05_layout.
+
+Theorem C05_roundtrip : forall enc dec mac m, wf_msg m ->
+  exists b, encode enc mac None m = Ok b /\ decode dec mac None false b = Ok m.
+Proof. exact roundtrip_full. Qed.
+Print Assumptions C05_roundtrip.
+
+(** The earlier restricted statements ([simple_chain] excludes DELETE and TSi/TSr); kept, implied by the full ones. *)
 Theorem C05_layout_partial : forall enc mac m, wf_msg m -> simple_chain (m_payloads m) ->
   encode enc mac None m = Ok (rfc_encode m).
 Proof. exact layout_partial. Qed.
@@ -40,7 +47,12 @@ Theorem C05_sa_roundtrip : forall ps, ps <> [] -> Forall wf_proposal ps ->
 Proof. exact sa_roundtrip. Qed.
 Print Assumptions C05_sa_roundtrip.
 
-(** Non-vacuity of the hypotheses. *)
-Theorem C05_hypotheses_satisfiable : wf_msg example_msg /\ simple_chain (m_payloads example_msg).
-Proof. exact example_msg_wf. Qed.
+(** Non-vacuity of the hypotheses: [example_msg] carries SA, KE, NONCE, NOTIFY, DELETE, TSi, TSr and VENDOR payloads
+    (so it is outside [simple_chain]); [example_msg_simple] is the DELETE/TS-free message of the partial statements. *)
+Theorem C05_full_hypotheses_satisfiable : wf_msg example_msg /\ ~ simple_chain (m_payloads example_msg).
+Proof. exact (conj example_msg_wf example_msg_not_simple). Qed.
+Print Assumptions C05_full_hypotheses_satisfiable.
+
+Theorem C05_hypotheses_satisfiable : wf_msg example_msg_simple /\ simple_chain (m_payloads example_msg_simple).
+Proof. exact example_msg_simple_wf. Qed.
 Print Assumptions C05_hypotheses_satisfiable.
